@@ -807,3 +807,586 @@ Section CompPost.
     NoDup (tree_ids sub) -> ids_lt (tree_ids sub) (length s) -> tree_post s (tree_ids sub) s' (tree_ids sub').
   Proof. unfold comp_set_distribution_params. comp_post (contract_set_distribution_params W). Qed.
 End CompPost.
+
+(** ** every step preserves the discipline and stays inside its footprint *)
+Lemma wf_world_update (w : world) s' t' :
+  wf_world w -> tree_post (w_store w) (tree_ids (w_tree w)) s' (tree_ids t') ->
+  wf_world {| w_store := s'; w_tree := t'; w_objs := w_objs w |}.
+Proof.
+  intros [[N B] Ho] [L [O [N' [B' P]]]]. split; [split; assumption|]. cbn [w_store w_tree w_objs].
+  intros k i Hk. destruct (Ho k i Hk) as [Hi Hn]. split; [lia|].
+  intros Hc. destruct (P i Hc) as [H|H]; [contradiction|lia].
+Qed.
+
+Lemma first_leaf_ids : forall t m ds, first_leaf t = Some (m, ds) -> incl (map snd ds) (tree_ids t).
+Proof.
+  fix IH 1. intros t m ds H. destruct t as [m0 ds0|f]; cbn [first_leaf] in H.
+  - injection H as <- <-. cbn [tree_ids]. apply incl_refl.
+  - destruct f as [|n t' r]; [discriminate|]. cbn [tree_ids forest_ids]. intros x Hx.
+    apply in_or_app. left. apply (IH t' m ds H x Hx).
+Qed.
+
+Lemma dict_get_in {V} (k : string) : forall (d : list (string * V)) v, dict_get k d = Some v -> In v (map snd d).
+Proof.
+  induction d as [|[k' v'] r IH]; intros v H; cbn [dict_get] in H; [discriminate|].
+  destruct (str_eqb k k'); [injection H as ->; left; reflexivity|right; apply IH, H].
+Qed.
+
+Lemma comp_get_distribution_in ts t i : comp_get_distribution ts t = inr i -> In i (tree_ids t).
+Proof.
+  unfold comp_get_distribution. destruct (first_leaf t) as [[m ds]|] eqn:E; [|discriminate].
+  destruct (dict_get ts ds) as [j|] eqn:Eg; [|discriminate]. intros H. injection H as <-.
+  apply (first_leaf_ids t m ds E), (dict_get_in ts ds j Eg).
+Qed.
+
+Lemma cell_set_params_effect (W : famW) ts args kwargs s sub s' sub' r :
+  comp_cell_set_params W ts args kwargs s sub = (s', sub', r) ->
+  sub' = sub /\ length s' = length s
+  /\ same_off (match comp_get_distribution ts sub with inr i => [i] | inl _ => [] end) s s'.
+Proof.
+  unfold comp_cell_set_params. destruct (comp_get_distribution ts sub) as [e|i].
+  - intros H. injection H as <- <- _. split; [reflexivity|]. split; [reflexivity|apply same_off_refl].
+  - destruct (nth_error s i) as [c|]; [|intros H; injection H as <- <- _; split; [reflexivity|]; split; [reflexivity|apply same_off_refl]].
+    destruct (cell_set_params W c args kwargs) as [c'|[c' rest]]; intros H; injection H as <- <- _;
+      (split; [reflexivity|]; split; [apply upd_length|apply same_off_upd; left; reflexivity]).
+Qed.
+
+Lemma same_off_nil_incl ids s s' : same_off [] s s' -> same_off ids s s'.
+Proof. apply same_off_incl. intros x []. Qed.
+
+Section StepWf.
+  Variable W : famW.
+  Variable D : famD.
+
+  (** tree operations, packaged *)
+  Lemma lift_tree_op {R} (w : world) (f : R -> oval) p (op : store -> ctree -> store * ctree * dres R) :
+    (forall s sub s' sub' r, op s sub = (s', sub', r) -> NoDup (tree_ids sub) -> ids_lt (tree_ids sub) (length s) ->
+       tree_post s (tree_ids sub) s' (tree_ids sub')) ->
+    wf_world w ->
+    let w' := fst (lift w f (at_path p op (w_store w) (w_tree w))) in
+    wf_world w' /\ (length (w_store w) <= length (w_store w'))%nat
+    /\ same_off (sub_ids p (w_tree w)) (w_store w) (w_store w').
+  Proof.
+    intros Hop Hw. destruct (at_path p op (w_store w) (w_tree w)) as [[s' t'] r] eqn:E.
+    destruct Hw as [[N B] Ho].
+    destruct (at_path_post op Hop p _ _ _ _ _ E N B) as [P O].
+    cbn [lift fst w_store]. split; [|split; [apply P|exact O]].
+    apply (wf_world_update w s' t'); [split; [split|]; assumption|exact P].
+  Qed.
+
+  Lemma objs_snoc_none (w : world) :
+    wf_world w -> wf_world {| w_store := w_store w; w_tree := w_tree w; w_objs := w_objs w ++ [None] |}.
+  Proof.
+    intros [Ht Ho]. split; [exact Ht|]. cbn [w_store w_tree w_objs]. intros k i Hk.
+    destruct (Nat.lt_ge_cases k (length (w_objs w))) as [Hl|Hl].
+    - rewrite nth_error_app1 in Hk by exact Hl. apply (Ho k i Hk).
+    - rewrite nth_error_app2 in Hk by exact Hl. destruct (k - length (w_objs w))%nat as [|[|n]]; cbn in Hk; discriminate.
+  Qed.
+
+  Lemma wf_same_len (w : world) s' :
+    wf_world w -> length s' = length (w_store w) ->
+    wf_world {| w_store := s'; w_tree := w_tree w; w_objs := w_objs w |}.
+  Proof.
+    intros [[N B] Ho] L. split; [split; [exact N|]|]; cbn [w_store w_tree w_objs].
+    - intros i Hi. rewrite L. apply B, Hi.
+    - intros k i Hk. rewrite L. apply (Ho k i Hk).
+  Qed.
+
+  Lemma world_eta (w : world) : {| w_store := w_store w; w_tree := w_tree w; w_objs := w_objs w |} = w.
+  Proof. destruct w; reflexivity. Qed.
+
+  Theorem step_wf_frame (w : world) (o : op) : wf_world w ->
+    wf_world (fst (step W D w o))
+    /\ (length (w_store w) <= length (w_store (fst (step W D w o))))%nat
+    /\ same_off (footprint w o) (w_store w) (w_store (fst (step W D w o))).
+  Proof.
+    intros Hw.
+    assert (Hsame : wf_world w /\ (length (w_store w) <= length (w_store w))%nat
+                    /\ forall ids, same_off ids (w_store w) (w_store w)).
+    { split; [exact Hw|]. split; [lia|]. intros ids. apply same_off_refl. }
+    destruct o as [a mt kw|k args kwargs|k v|p ts a|p ts|p items|p|p v|p|p args kwargs|p ts args kwargs];
+      cbn [step footprint].
+    - (* ONew *)
+      destruct (resolve (w_objs w) a) as [a'|]; [|cbn [fst]; split; [apply Hsame|split; [lia|apply same_off_refl]]].
+      destruct (dist_new W D (w_store w) a' mt kw) as [e|c]; cbn [fst w_store].
+      + split; [apply objs_snoc_none, Hw|]. split; [lia|apply same_off_refl].
+      + split; [|split; [rewrite app_length; lia|apply same_off_app]].
+        destruct Hw as [[N B] Ho]. split; [split; [exact N|]|]; cbn [w_store w_tree w_objs].
+        * intros i Hi. rewrite app_length. specialize (B i Hi). lia.
+        * intros k i Hk. rewrite app_length. cbn [length].
+          destruct (Nat.lt_ge_cases k (length (w_objs w))) as [Hl|Hl].
+          -- rewrite nth_error_app1 in Hk by exact Hl. destruct (Ho k i Hk). split; [lia|assumption].
+          -- rewrite nth_error_app2 in Hk by exact Hl.
+             destruct (k - length (w_objs w))%nat as [|[|n]]; cbn in Hk; try discriminate.
+             injection Hk as <-. split; [lia|]. intros Hc. specialize (B _ Hc). lia.
+    - (* OObjSetParams *)
+      destruct (nth_error (w_objs w) k) as [[i|]|]; try (cbn [fst]; split; [apply Hsame|split; [lia|apply same_off_refl]]).
+      destruct (nth_error (w_store w) i) as [c|]; [|cbn [fst]; split; [apply Hsame|split; [lia|apply same_off_refl]]].
+      destruct (cell_set_params W c args kwargs) as [c'|[c' rest]]; cbn [fst w_store];
+        (split; [apply wf_same_len; [exact Hw|apply upd_length]|split; [rewrite upd_length; lia|apply same_off_upd; left; reflexivity]]).
+    - (* OObjSetMaxTime *)
+      destruct (nth_error (w_objs w) k) as [[i|]|]; try (cbn [fst]; split; [apply Hsame|split; [lia|apply same_off_refl]]).
+      destruct (nth_error (w_store w) i) as [c|]; [|cbn [fst]; split; [apply Hsame|split; [lia|apply same_off_refl]]].
+      destruct (v <? 0)%Z; cbn [fst w_store]; [split; [apply Hsame|split; [lia|apply same_off_refl]]|].
+      split; [apply wf_same_len; [exact Hw|apply upd_length]|split; [rewrite upd_length; lia|apply same_off_upd; left; reflexivity]].
+    - (* OSetDist *)
+      destruct (resolve (w_objs w) a) as [a'|]; [|cbn [fst]; split; [apply Hsame|split; [lia|apply same_off_refl]]].
+      apply lift_tree_op; [apply post_set_distribution|exact Hw].
+    - apply lift_tree_op; [apply post_del_distribution|exact Hw].
+    - destruct (resolve_items (w_objs w) items) as [items'|]; [|cbn [fst]; split; [apply Hsame|split; [lia|apply same_off_refl]]].
+      apply lift_tree_op; [apply post_replace_all|exact Hw].
+    - apply lift_tree_op; [apply post_clear|exact Hw].
+    - apply lift_tree_op; [apply post_set_max_time|exact Hw].
+    - apply lift_tree_op; [apply post_get_max_time|exact Hw].
+    - apply lift_tree_op; [apply post_set_distribution_params|exact Hw].
+    - (* OCellSetParams *)
+      unfold at_path. destruct (get_sub p (w_tree w)) as [sub|] eqn:E;
+        [|cbn [lift fst w_store]; rewrite world_eta; split; [apply Hsame|split; [lia|apply same_off_refl]]].
+      destruct (comp_cell_set_params W ts args kwargs (w_store w) sub) as [[s' sub'] r] eqn:Ec.
+      destruct (cell_set_params_effect W _ _ _ _ _ _ _ _ Ec) as [-> [L O]].
+      cbn [lift fst w_store]. split; [|split; [lia|exact O]].
+      destruct (get_put_ids p _ _ E) as [pre [post [I1 I2]]].
+      destruct Hw as [[N B] Ho]. split; [split|]; cbn [w_store w_tree w_objs].
+      + rewrite I2, <- I1. exact N.
+      + intros i Hi. rewrite I2, <- I1 in Hi. rewrite L. apply B, Hi.
+      + intros k i Hk. rewrite L, I2, <- I1. apply (Ho k i Hk).
+  Qed.
+End StepWf.
+
+(** ** set_distribution: fresh cells in every leaf, no existing cell touched *)
+Lemma str_eqb_refl x : str_eqb x x = true.
+Proof. apply String.eqb_refl. Qed.
+Lemma dict_get_set_same {V} (k : string) (v : V) : forall d, dict_get k (dict_set k v d) = Some v.
+Proof.
+  induction d as [|[k' v'] r IH]; cbn [dict_set dict_get]; [rewrite str_eqb_refl; reflexivity|].
+  destruct (str_eqb k k') eqn:E; cbn [dict_get]; [rewrite str_eqb_refl; reflexivity|]. rewrite E. exact IH.
+Qed.
+Lemma dict_get_set_other {V} (k k0 : string) (v : V) : k0 <> k -> forall d, dict_get k0 (dict_set k v d) = dict_get k0 d.
+Proof.
+  intros Hne. assert (Hf : str_eqb k0 k = false) by (apply String.eqb_neq; exact Hne).
+  induction d as [|[k' v'] r IH]; cbn [dict_set dict_get]; [rewrite Hf; reflexivity|].
+  destruct (str_eqb k k') eqn:E; cbn [dict_get].
+  - apply String.eqb_eq in E. subst k'. rewrite Hf. reflexivity.
+  - destruct (str_eqb k0 k'); [reflexivity|exact IH].
+Qed.
+
+Lemma sync_cells_synced m : forall ds s,
+  (forall ts i c, In (ts, i) ds -> nth_error s i = Some c -> c_maxt c = m) -> sync_cells s m ds = s.
+Proof.
+  induction ds as [|[t j] r IH]; intros s H; [reflexivity|]. cbn [sync_cells].
+  destruct (nth_error s j) as [c|] eqn:E.
+  - rewrite (H t j c (or_introl eq_refl) E), Nat.eqb_refl. apply IH. intros ts i c' Hi. apply (H ts i c'). right. exact Hi.
+  - apply IH. intros ts i c' Hi. apply (H ts i c'). right. exact Hi.
+Qed.
+
+Definition prefix_same (s s' : store) : Prop := forall i, (i < length s)%nat -> nth_error s' i = nth_error s i.
+
+Lemma synced_prefix :
+  (forall t s s1, prefix_same s s1 -> ids_lt (tree_ids t) (length s) -> synced s t -> synced s1 t)
+  /\ (forall f s s1, prefix_same s s1 -> ids_lt (forest_ids f) (length s) -> synced_forest s f -> synced_forest s1 f).
+Proof.
+  apply ctree_forest_ind.
+  - intros m ds s s1 P B H. cbn [synced tree_ids] in *. intros ts i c Hi Hn.
+    assert (Hl : (i < length s)%nat) by (apply B; apply (in_map snd ds (ts, i) Hi)).
+    rewrite (P i Hl) in Hn. apply (H ts i c Hi Hn).
+  - intros f IH s s1 P B H. cbn [synced synced_forest tree_ids] in *. apply (IH s s1 P B H).
+  - intros s s1 _ _ _. exact I.
+  - intros n t IHt r IHr s s1 P B H. cbn [synced synced_forest forest_ids] in *. destruct H as [Ht Hr]. split.
+    + apply (IHt s s1 P (ids_lt_app_l _ _ _ B) Ht).
+    + apply (IHr s s1 P (ids_lt_app_r _ _ _ B) Hr).
+Qed.
+
+Definition fresh_leaf (ts : string) (n : nat) (l : nat * list (string * nat)) : Prop :=
+  exists i, dict_get ts (snd l) = Some i /\ (n <= i)%nat.
+
+Section SetDist.
+  Variable W : famW.
+  Variable D : famD.
+  Variable ts : string.
+  Variable a : darg.
+
+  Lemma each_set_dist :
+    (forall t s s' t' r, each_tree (leaf_set_distribution W D) same (ts, a) s t = (s', t', inr r) ->
+        (length s <= length s')%nat /\ Forall (fresh_leaf ts (length s)) (show_tree t')
+        /\ (ids_lt (tree_ids t) (length s) -> synced s t -> prefix_same s s'))
+    /\ (forall f keys s s' f' r, each_forest (leaf_set_distribution W D) same keys (ts, a) s f = (s', f', inr r) ->
+        (length s <= length s')%nat /\ Forall (fresh_leaf ts (length s)) (show_forest f')
+        /\ (ids_lt (forest_ids f) (length s) -> synced_forest s f -> prefix_same s s')).
+  Proof.
+    apply ctree_forest_ind.
+    - intros m ds s s' t' r H. rewrite each_tree_leaf in H. unfold leaf_set_distribution in H. cbn [fst snd] in H.
+      destruct (sync_cells_post m (map snd ds) ds s (incl_refl _)) as [L O].
+      destruct (dist_new W D (sync_cells s m ds) a (Some m) []) as [e|c]; [discriminate|].
+      injection H as <- <- _. split; [rewrite app_length; lia|]. split.
+      + cbn [show_tree]. constructor; [|constructor]. exists (length (sync_cells s m ds)). cbn [snd].
+        split; [apply dict_get_set_same|lia].
+      + intros B Hs. cbn [synced] in Hs. rewrite (sync_cells_synced m ds s Hs). intros i Hi.
+        apply nth_error_app1. exact Hi.
+    - intros f IH s s' t' r H. destruct f as [|n t rest]; [rewrite each_tree_nil in H; discriminate|].
+      rewrite each_tree_cons in H.
+      destruct (each_forest (leaf_set_distribution W D) same (forest_keys (FCons n t rest)) (ts, a) s (FCons n t rest))
+        as [[s1 f1] r1] eqn:E.
+      injection H as <- <- ->. cbn [show_tree tree_ids synced]. apply (IH _ _ _ _ _ E).
+    - intros keys s s' f' r H. rewrite each_forest_nil in H. injection H as <- <- _.
+      split; [lia|]. split; [constructor|]. intros _ _ i _. reflexivity.
+    - intros n t IHt rest IHr keys s s' f' r H. rewrite each_forest_cons in H.
+      change (same keys n (ts, a)) with (ts, a) in H.
+      destruct (each_tree (leaf_set_distribution W D) same (ts, a) s t) as [[s1 t1] r1] eqn:E1.
+      destruct r1 as [e|v1]; [discriminate|].
+      destruct (each_forest (leaf_set_distribution W D) same keys (ts, a) s1 rest) as [[s2 f2] r2] eqn:E2.
+      destruct r2 as [e|v2]; [discriminate|]. injection H as <- <- _.
+      destruct (IHt _ _ _ _ E1) as [L1 [F1 P1]]. destruct (IHr _ _ _ _ _ E2) as [L2 [F2 P2]].
+      split; [lia|]. split.
+      + cbn [show_forest]. apply Forall_app. split; [exact F1|].
+        apply (Forall_impl _ (P := fresh_leaf ts (length s1))); [|exact F2].
+        intros l [i [Hg Hi]]. exists i. split; [exact Hg|lia].
+      + cbn [forest_ids synced_forest]. intros B [St Sr].
+        assert (Pt : prefix_same s s1) by (apply P1; [apply (ids_lt_app_l _ _ _ B)|exact St]).
+        assert (Pr : prefix_same s1 s2).
+        { apply P2; [apply ids_lt_mono with (n := length s); [exact L1|apply (ids_lt_app_r _ _ _ B)]|].
+          apply (proj2 synced_prefix rest s s1 Pt (ids_lt_app_r _ _ _ B) Sr). }
+        intros i Hi. rewrite (Pr i) by lia. apply Pt, Hi.
+  Qed.
+End SetDist.
+
+(** ** keywords addressed to one T-stage *)
+Lemma set_kw_nil kw : set_kw kw [] [] = (kw, []).
+Proof. induction kw as [|[n v] r IH]; [reflexivity|]. cbn [set_kw popfirst dict_get]. rewrite IH. reflexivity. Qed.
+Lemma set_kw_nil_rest kw kwargs : snd (set_kw kw [] kwargs) = [].
+Proof.
+  induction kw as [|[n v] r IH]; [reflexivity|]. cbn [set_kw popfirst].
+  destruct (set_kw r [] kwargs) as [r' rest]. cbn [snd] in *. exact IH.
+Qed.
+
+Lemma cell_set_params_nil_rest (W : famW) c kwargs c' rest :
+  cell_set_params W c [] kwargs = inr (c', rest) -> rest = [].
+Proof.
+  unfold cell_set_params. destruct (c_dist c) as [p|f kw]; [intros H; injection H as _ <-; reflexivity|].
+  pose proof (set_kw_nil_rest kw kwargs) as Hr. destruct (set_kw kw [] kwargs) as [kw' rest']. cbn [snd] in Hr. subst rest'.
+  destruct (W f (c_maxt c) kw'); [|discriminate]. intros H. injection H as _ <-. reflexivity.
+Qed.
+Lemma cell_set_params_noop (W : famW) c :
+  cell_set_params W c [] [] = inl c \/ cell_set_params W c [] [] = inr (c, []).
+Proof.
+  unfold cell_set_params. destruct c as [m d st]. cbn [c_dist c_maxt c_stale]. destruct d as [p|f kw]; [right; reflexivity|].
+  rewrite set_kw_nil. destruct (W f m kw); [right|left]; reflexivity.
+Qed.
+
+Lemma mem_In x : forall l, In x l -> mem x l = true.
+Proof.
+  induction l as [|y l IH]; intros H; [destruct H|]. cbn [mem]. destruct H as [->|H].
+  - rewrite str_eqb_refl. reflexivity.
+  - rewrite (IH H). apply orb_true_r.
+Qed.
+
+Lemma unflatten_acc_target ts expected : mem ts expected = true ->
+  forall kwargs split glob,
+  (forall key v, In (key, v) kwargs -> fst (partition_us key) = ts) ->
+  glob = [] -> (forall t, t <> ts -> dict_get t split = None) ->
+  snd (unflatten_acc kwargs expected split glob) = []
+  /\ forall t, t <> ts -> dict_get t (fst (unflatten_acc kwargs expected split glob)) = None.
+Proof.
+  intros Hm. induction kwargs as [|[key v] r IH]; intros split glob Hk Hg Hs; cbn [unflatten_acc].
+  - cbn [fst snd]. auto.
+  - pose proof (Hk key v (or_introl eq_refl)) as Hp. destruct (partition_us key) as [lft rgt]. cbn [fst] in Hp. subst lft.
+    rewrite Hm. apply IH; [intros k' v' Hi; apply (Hk k' v'); right; exact Hi|exact Hg|].
+    intros t Ht. rewrite dict_get_set_other by exact Ht. apply Hs, Ht.
+Qed.
+
+Lemma params_loop_target (W : famW) ts split :
+  (forall t, t <> ts -> dict_get t split = None) ->
+  forall it s s' r i, (forall t, In (t, i) it -> t <> ts) ->
+  leaf_params_loop W it split [] [] s = (s', r) -> nth_error s' i = nth_error s i.
+Proof.
+  intros Hs. induction it as [|[t j] it IH]; intros s s' r i Hi H; cbn [leaf_params_loop] in H.
+  - injection H as <- _. reflexivity.
+  - assert (Hi' : forall t0, In (t0, i) it -> t0 <> ts) by (intros t0 H0; apply Hi; right; exact H0).
+    destruct (nth_error s j) as [c|] eqn:Ec; [|injection H as <- _; reflexivity].
+    destruct (cell_updateable c); [|apply (IH _ _ _ _ Hi' H)].
+    destruct (Nat.eq_dec j i) as [->|Hne].
+    + assert (Ht : t <> ts) by (apply Hi; left; reflexivity).
+      unfold dict_get_or in H. rewrite (Hs t Ht) in H. cbn [dict_update] in H.
+      destruct (cell_set_params_noop W c) as [E|E]; rewrite E in H.
+      * injection H as <- _. rewrite (upd_same _ _ _ Ec). reflexivity.
+      * rewrite (upd_same _ _ _ Ec) in H. apply (IH _ _ _ _ Hi' H).
+    + destruct (cell_set_params W c [] (dict_update [] (dict_get_or t split []))) as [c'|[c' rest]] eqn:E.
+      * injection H as <- _. apply nth_error_upd_neq. exact Hne.
+      * apply cell_set_params_nil_rest in E. subst rest. rewrite (IH _ _ _ _ Hi' H).
+        apply nth_error_upd_neq. exact Hne.
+Qed.
+
+Lemma nodup_snd_unique {A} : forall (d : list (A * nat)) a b i,
+  NoDup (map snd d) -> In (a, i) d -> In (b, i) d -> a = b.
+Proof.
+  induction d as [|[x j] d IH]; intros a b i N Ha Hb; [destruct Ha|]. cbn [map snd] in N.
+  inversion N as [|? ? Hn Hd]; subst. destruct Ha as [Ha|Ha]; destruct Hb as [Hb|Hb].
+  - congruence.
+  - injection Ha as -> ->. exfalso. apply Hn. apply (in_map snd d (b, i) Hb).
+  - injection Hb as -> ->. exfalso. apply Hn. apply (in_map snd d (a, i) Ha).
+  - apply (IH a b i Hd Ha Hb).
+Qed.
+
+Theorem copies_are_independent : C18_copies_are_independent_stmt.
+Proof.
+  split; [|split].
+  - intros W D w o Hw. apply step_wf_frame, Hw.
+  - intros W D ts a s t s' t' [N B] H. unfold comp_set_distribution in H.
+    destruct (each_tree (leaf_set_distribution W D) same (ts, a) s t) as [[s1 t1] r1] eqn:E.
+    destruct r1 as [e|l]; [discriminate|]. injection H as <- <-.
+    destruct (proj1 (each_post _ _ (contract_set_distribution W D)) _ _ _ _ _ _ E N B) as [_ [_ [N' [B' _]]]].
+    destruct (proj1 (each_set_dist W D ts a) _ _ _ _ _ E) as [_ [F P]].
+    split; [split; assumption|]. split; [exact F|]. intros Hs. apply (P B Hs).
+  - intros W s m ds ts kwargs s' l r N Hk Hts H t i Hi Hne.
+    unfold leaf_set_distribution_params in H. cbn [fst snd] in H. unfold unflatten_and_split in H.
+    destruct (unflatten_acc_target ts (map fst ds) (mem_In ts _ Hts) kwargs [] [] Hk eq_refl (fun t _ => eq_refl)) as [Hg Hsp].
+    destruct (unflatten_acc kwargs (map fst ds) [] []) as [split glob]. cbn [fst snd] in Hg, Hsp. subst glob.
+    destruct (leaf_params_loop W ds split [] [] s) as [s1 r1] eqn:E. injection H as <- _ _.
+    apply (params_loop_target W ts split Hsp ds s s1 r1 i); [|exact E].
+    intros t0 H0. rewrite (nodup_snd_unique ds t0 t i N H0 Hi). exact Hne.
+Qed.
+
+(** * Every Distribution object stays normalised along every history *)
+Definition cell_inv (c : cell) : Prop :=
+  match c_dist c with
+  | Frozen p => c_stale c = false -> is_pmf (c_maxt c) p
+  | Param _ _ => True
+  end.
+Definition store_inv (s : store) : Prop := Forall cell_inv s.
+
+Lemma Forall_upd {A} (P : A -> Prop) : forall l i a, Forall P l -> P a -> Forall P (upd l i a).
+Proof.
+  induction l as [|x l IH]; intros i a H Ha; [constructor|]. inversion H; subst.
+  destruct i as [|i]; cbn [upd]; constructor; auto.
+Qed.
+Lemma store_inv_nth s i c : store_inv s -> nth_error s i = Some c -> cell_inv c.
+Proof. intros H E. apply (proj1 (Forall_forall _ _) H c). apply (nth_error_In _ _ E). Qed.
+
+Lemma cell_inv_set_maxt c v : cell_inv (cell_set_maxt c v).
+Proof.
+  unfold cell_inv, cell_set_maxt, cell_updateable. cbn [c_dist c_stale c_maxt].
+  destruct (c_dist c); [cbn [negb]; discriminate|exact I].
+Qed.
+Lemma cell_inv_set_params (W : famW) c args kwargs :
+  cell_inv c ->
+  match cell_set_params W c args kwargs with inl c' => cell_inv c' | inr (c', _) => cell_inv c' end.
+Proof.
+  intros H. unfold cell_set_params. destruct (c_dist c) as [p|f kw] eqn:E; [exact H|].
+  destruct (set_kw kw args kwargs) as [kw' rest]. destruct (W f (c_maxt c) kw'); [|exact H].
+  unfold cell_inv. cbn [c_dist]. exact I.
+Qed.
+Lemma is_pmf_sum_pos m p : is_pmf m p -> 0 < sumQ p.
+Proof. intros [_ [_ E]]. rewrite E. reflexivity. Qed.
+
+Lemma cell_inv_dist_new (W : famW) (D : famD) s a mt kw c :
+  store_inv s -> darg_okb a = true -> dist_new W D s a mt kw = inr c -> cell_inv c.
+Proof.
+  intros Hs Ha H. destruct a as [w|f|i]; cbn [dist_new] in H.
+  - cbn [darg_okb] in Ha.
+    set (m := match mt with None => (length w - 1)%nat | Some m => m end) in *.
+    destruct (mk_frozen m w) as [d|] eqn:E; [|discriminate]. injection H as <-.
+    destruct (mk_frozen_spec m w d E) as [Hl ->]. unfold cell_inv. cbn [c_dist c_maxt]. intros _.
+    apply (mk_frozen_is_pmf m w _ Ha E).
+  - destruct mt as [m|]; [|discriminate]. destruct (W f m (dict_update (D f) kw)); [|discriminate].
+    injection H as <-. exact I.
+  - destruct (nth_error s i) as [c0|] eqn:E0; [|discriminate].
+    pose proof (store_inv_nth s i c0 Hs E0) as Hc0. unfold cell_inv in Hc0.
+    destruct (c_dist c0) as [p|f kw0].
+    + destruct (c_stale c0); [discriminate|]. specialize (Hc0 eq_refl).
+      destruct (mk_frozen (c_maxt c0) p) as [d|] eqn:E; [|discriminate]. injection H as <-.
+      destruct (mk_frozen_spec _ _ _ E) as [Hl ->]. unfold cell_inv. cbn [c_dist c_maxt]. intros _.
+      destruct Hc0 as [L [Nn S1]]. apply normalize_is_pmf; [exact L|exact Nn|]. rewrite S1. reflexivity.
+    + destruct (W f (c_maxt c0) kw0); [|discriminate]. injection H as <-. exact I.
+Qed.
+
+Lemma cell_inv_ok (W : famW) : W_good W -> forall c p, cell_inv c -> cell_pmf W c = inr p -> is_pmf (c_maxt c) p.
+Proof.
+  intros HW c p Hc H. unfold cell_inv in Hc. unfold cell_pmf in H. destruct (c_dist c) as [q|f kw].
+  - destruct (c_stale c); [discriminate|]. injection H as <-. apply Hc. reflexivity.
+  - destruct (W f (c_maxt c) kw) as [w|] eqn:E; [|discriminate]. injection H as <-.
+    destruct (HW _ _ _ _ E) as [L [Nn S]]. apply normalize_is_pmf; assumption.
+Qed.
+
+(** traversal preserves a store invariant *)
+Section EachInv.
+  Context {X R : Type}.
+  Variable lo : X -> store -> nat -> list (string * nat) -> store * leafT * dres R.
+  Variable de : list string -> string -> X -> X.
+  Variable I : store -> Prop.
+  Variable PX : X -> Prop.
+  Hypothesis Hde : forall keys n x, PX x -> PX (de keys n x).
+  Hypothesis Hlo : forall x s m ds, PX x -> I s -> I (fst (fst (lo x s m ds))).
+
+  Lemma each_inv :
+    (forall t x s, PX x -> I s -> I (fst (fst (each_tree lo de x s t))))
+    /\ (forall f keys x s, PX x -> I s -> I (fst (fst (each_forest lo de keys x s f)))).
+  Proof.
+    apply ctree_forest_ind.
+    - intros m ds x s Hx Hs. rewrite each_tree_leaf. specialize (Hlo x s m ds Hx Hs).
+      destruct (lo x s m ds) as [[s1 [m1 ds1]] r1]. exact Hlo.
+    - intros f IH x s Hx Hs. destruct f as [|n t rest]; [rewrite each_tree_nil; exact Hs|].
+      rewrite each_tree_cons. specialize (IH (forest_keys (FCons n t rest)) x s Hx Hs).
+      destruct (each_forest lo de (forest_keys (FCons n t rest)) x s (FCons n t rest)) as [[s1 f1] r1]. exact IH.
+    - intros keys x s Hx Hs. rewrite each_forest_nil. exact Hs.
+    - intros n t IHt rest IHr keys x s Hx Hs. rewrite each_forest_cons.
+      specialize (IHt (de keys n x) s (Hde keys n x Hx) Hs).
+      destruct (each_tree lo de (de keys n x) s t) as [[s1 t1] r1]. cbn [fst] in IHt.
+      destruct r1 as [e|v1]; [exact IHt|]. specialize (IHr keys x s1 Hx IHt).
+      destruct (each_forest lo de keys x s1 rest) as [[s2 f2] r2]. exact IHr.
+  Qed.
+End EachInv.
+
+Section HistInv.
+  Variable W : famW.
+  Variable D : famD.
+
+  Lemma inv_sync m : forall ds s, store_inv s -> store_inv (sync_cells s m ds).
+  Proof.
+    induction ds as [|[t j] r IH]; intros s Hs; [exact Hs|]. cbn [sync_cells]. apply IH.
+    destruct (nth_error s j) as [c|]; [|exact Hs]. destruct (Nat.eqb (c_maxt c) m); [exact Hs|].
+    apply Forall_upd; [exact Hs|apply cell_inv_set_maxt].
+  Qed.
+  Lemma inv_set_cells v : forall ds s, store_inv s -> store_inv (set_cells_maxt s v ds).
+  Proof.
+    induction ds as [|[t j] r IH]; intros s Hs; [exact Hs|]. cbn [set_cells_maxt]. apply IH.
+    destruct (nth_error s j) as [c|]; [|exact Hs]. apply Forall_upd; [exact Hs|apply cell_inv_set_maxt].
+  Qed.
+  Lemma inv_leaf_set_distribution x s m ds :
+    darg_okb (snd x) = true -> store_inv s -> store_inv (fst (fst (leaf_set_distribution W D x s m ds))).
+  Proof.
+    intros Hx Hs. unfold leaf_set_distribution. pose proof (inv_sync m ds s Hs) as H1.
+    destruct (dist_new W D (sync_cells s m ds) (snd x) (Some m) []) as [e|c] eqn:E; cbn [fst]; [exact H1|].
+    apply Forall_app. split; [exact H1|]. constructor; [|constructor].
+    apply (cell_inv_dist_new W D _ _ _ _ _ H1 Hx E).
+  Qed.
+  Lemma inv_leaf_set_many : forall items s m ds,
+    forallb (fun x => darg_okb (snd x)) items = true -> store_inv s ->
+    store_inv (fst (fst (leaf_set_many W D items s m ds))).
+  Proof.
+    induction items as [|x items IH]; intros s m ds Hx Hs; cbn [leaf_set_many]; [exact Hs|].
+    cbn [forallb] in Hx. apply andb_prop in Hx. destruct Hx as [Hx Hr].
+    pose proof (inv_leaf_set_distribution x s m ds Hx Hs) as H1.
+    destruct (leaf_set_distribution W D x s m ds) as [[s1 [m1 ds1]] r1]. cbn [fst] in H1.
+    destruct r1 as [e|u]; [exact H1|]. apply IH; assumption.
+  Qed.
+  Lemma inv_params_loop : forall it split glob args s, store_inv s ->
+    store_inv (fst (leaf_params_loop W it split glob args s)).
+  Proof.
+    induction it as [|[t j] it IH]; intros split glob args s Hs; cbn [leaf_params_loop]; [exact Hs|].
+    destruct (nth_error s j) as [c|] eqn:Ec; [|exact Hs]. destruct (cell_updateable c); [|apply IH, Hs].
+    pose proof (cell_inv_set_params W c args (dict_update glob (dict_get_or t split [])) (store_inv_nth _ _ _ Hs Ec)) as Hc.
+    destruct (cell_set_params W c args (dict_update glob (dict_get_or t split []))) as [c'|[c' rest]].
+    - cbn [fst]. apply Forall_upd; assumption.
+    - apply IH. apply Forall_upd; assumption.
+  Qed.
+
+  Lemma inv_at_path {R} p (op : store -> ctree -> store * ctree * dres R) s t :
+    (forall s sub, store_inv s -> store_inv (fst (fst (op s sub)))) ->
+    store_inv s -> store_inv (fst (fst (at_path p op s t))).
+  Proof.
+    intros Hop Hs. unfold at_path. destruct (get_sub p t) as [sub|]; [|exact Hs].
+    specialize (Hop s sub Hs). destruct (op s sub) as [[s1 sub1] r1]. exact Hop.
+  Qed.
+
+  Lemma inv_lift {R} (w : world) (f : R -> oval) (x : store * ctree * dres R) :
+    store_inv (fst (fst x)) -> store_inv (w_store (fst (lift w f x))).
+  Proof. destruct x as [[s t] r]. intros H. exact H. Qed.
+
+  Lemma resolve_ok objs a a' : darg_okb a = true -> resolve objs a = Some a' -> darg_okb a' = true.
+  Proof.
+    destruct a as [w|f|k]; cbn [resolve]; intros Ha H; try (injection H as <-; exact Ha).
+    destruct (nth_error objs k) as [[i|]|]; try discriminate. injection H as <-. reflexivity.
+  Qed.
+  Lemma resolve_items_ok objs : forall items items',
+    forallb (fun x => darg_okb (snd x)) items = true -> resolve_items objs items = Some items' ->
+    forallb (fun x => darg_okb (snd x)) items' = true.
+  Proof.
+    induction items as [|[t a] r IH]; intros items' Hi H; cbn [resolve_items] in H; [injection H as <-; reflexivity|].
+    cbn [forallb snd] in Hi. apply andb_prop in Hi. destruct Hi as [Ha Hr].
+    destruct (resolve objs a) as [a'|] eqn:Ea; [|discriminate].
+    destruct (resolve_items objs r) as [r'|] eqn:Er; [|discriminate]. injection H as <-.
+    cbn [forallb snd]. rewrite (resolve_ok _ _ _ Ha Ea), (IH r' Hr eq_refl). reflexivity.
+  Qed.
+
+  Lemma step_inv (w : world) (o : op) :
+    op_okb o = true -> store_inv (w_store w) -> store_inv (w_store (fst (step W D w o))).
+  Proof.
+    intros Ho Hs.
+    destruct o as [a mt kw|k args kwargs|k v|p ts a|p ts|p items|p|p v|p|p args kwargs|p ts args kwargs];
+      cbn [step op_okb] in *.
+    - destruct (resolve (w_objs w) a) as [a'|] eqn:Ea; [|exact Hs].
+      destruct (dist_new W D (w_store w) a' mt kw) as [e|c] eqn:E; cbn [fst w_store]; [exact Hs|].
+      apply Forall_app. split; [exact Hs|]. constructor; [|constructor].
+      apply (cell_inv_dist_new W D _ _ _ _ _ Hs (resolve_ok _ _ _ Ho Ea) E).
+    - destruct (nth_error (w_objs w) k) as [[i|]|]; try exact Hs.
+      destruct (nth_error (w_store w) i) as [c|] eqn:Ec; [|exact Hs].
+      pose proof (cell_inv_set_params W c args kwargs (store_inv_nth _ _ _ Hs Ec)) as Hc.
+      destruct (cell_set_params W c args kwargs) as [c'|[c' rest]]; cbn [fst w_store]; apply Forall_upd; assumption.
+    - destruct (nth_error (w_objs w) k) as [[i|]|]; try exact Hs.
+      destruct (nth_error (w_store w) i) as [c|]; [|exact Hs].
+      destruct (v <? 0)%Z; cbn [fst w_store]; [exact Hs|]. apply Forall_upd; [exact Hs|apply cell_inv_set_maxt].
+    - destruct (resolve (w_objs w) a) as [a'|] eqn:Ea; [|exact Hs].
+      apply inv_lift, inv_at_path; [|exact Hs]. intros s sub Hs'. unfold comp_set_distribution.
+      pose proof (resolve_ok _ _ _ Ho Ea) as Ha'.
+      assert (H : store_inv (fst (fst (each_tree (leaf_set_distribution W D) same (ts, a') s sub)))).
+      { apply (proj1 (each_inv (leaf_set_distribution W D) same store_inv (fun x => darg_okb (snd x) = true)
+                       (fun _ _ _ h => h) (fun x s m ds hx hs => inv_leaf_set_distribution x s m ds hx hs))); [exact Ha'|exact Hs']. }
+      destruct (each_tree (leaf_set_distribution W D) same (ts, a') s sub) as [[? ?] ?]. exact H.
+    - apply inv_lift, inv_at_path; [|exact Hs]. intros s sub Hs'. unfold comp_del_distribution.
+      assert (H : store_inv (fst (fst (each_tree leaf_del_distribution same ts s sub)))).
+      { apply (proj1 (each_inv leaf_del_distribution same store_inv (fun _ => True) (fun _ _ _ h => h)
+                       (fun x s m ds _ hs => ltac:(unfold leaf_del_distribution; destruct (dict_get x ds); exact hs)))); [exact I|exact Hs']. }
+      destruct (each_tree leaf_del_distribution same ts s sub) as [[? ?] ?]. exact H.
+    - destruct (resolve_items (w_objs w) items) as [items'|] eqn:Ei; [|exact Hs].
+      apply inv_lift, inv_at_path; [|exact Hs]. intros s sub Hs'. unfold comp_replace_all.
+      pose proof (resolve_items_ok _ _ _ Ho Ei) as Hi'.
+      assert (H : store_inv (fst (fst (each_tree (leaf_replace_all W D) same items' s sub)))).
+      { apply (proj1 (each_inv (leaf_replace_all W D) same store_inv
+                       (fun its => forallb (fun x => darg_okb (snd x)) its = true) (fun _ _ _ h => h)
+                       (fun x s m ds hx hs => inv_leaf_set_many x s m [] hx hs))); [exact Hi'|exact Hs']. }
+      destruct (each_tree (leaf_replace_all W D) same items' s sub) as [[? ?] ?]. exact H.
+    - apply inv_lift, inv_at_path; [|exact Hs]. intros s sub Hs'. unfold comp_clear.
+      assert (H : store_inv (fst (fst (each_tree leaf_clear same tt s sub)))).
+      { apply (proj1 (each_inv leaf_clear same store_inv (fun _ => True) (fun _ _ _ h => h)
+                       (fun x s m ds _ hs => hs))); [exact I|exact Hs']. }
+      destruct (each_tree leaf_clear same tt s sub) as [[? ?] ?]. exact H.
+    - apply inv_lift, inv_at_path; [|exact Hs]. intros s sub Hs'. unfold comp_set_max_time.
+      assert (H : store_inv (fst (fst (each_tree leaf_set_max_time same v s sub)))).
+      { apply (proj1 (each_inv leaf_set_max_time same store_inv (fun _ => True) (fun _ _ _ h => h)
+                       (fun x s m ds _ hs => ltac:(unfold leaf_set_max_time; destruct (x <? 0)%Z; cbn [fst]; [exact hs|apply inv_set_cells, hs])))); [exact I|exact Hs']. }
+      destruct (each_tree leaf_set_max_time same v s sub) as [[? ?] ?]. exact H.
+    - apply inv_lift, inv_at_path; [|exact Hs]. intros s sub Hs'. unfold comp_get_max_time.
+      assert (H : store_inv (fst (fst (each_tree leaf_get_max_time same tt s sub)))).
+      { apply (proj1 (each_inv leaf_get_max_time same store_inv (fun _ => True) (fun _ _ _ h => h)
+                       (fun x s m ds _ hs => inv_sync m ds s hs))); [exact I|exact Hs']. }
+      destruct (each_tree leaf_get_max_time same tt s sub) as [[? ?] ?]. exact H.
+    - apply inv_lift, inv_at_path; [|exact Hs]. intros s sub Hs'. unfold comp_set_distribution_params.
+      assert (H : store_inv (fst (fst (each_tree (leaf_set_distribution_params W) descend_params (args, kwargs) s sub)))).
+      { apply (proj1 (each_inv (leaf_set_distribution_params W) descend_params store_inv (fun _ => True) (fun _ _ _ h => h)
+                       (fun x s m ds _ hs => ltac:(unfold leaf_set_distribution_params;
+                          destruct (unflatten_and_split (snd x) (map fst ds)) as [sp gl];
+                          pose proof (inv_params_loop ds sp gl (fst x) s hs) as hh;
+                          destruct (leaf_params_loop W ds sp gl (fst x) s); exact hh)))); [exact I|exact Hs']. }
+      destruct (each_tree (leaf_set_distribution_params W) descend_params (args, kwargs) s sub) as [[? ?] ?]. exact H.
+    - apply inv_lift, inv_at_path; [|exact Hs]. intros s sub Hs'. unfold comp_cell_set_params.
+      destruct (comp_get_distribution ts sub) as [e|i]; [exact Hs'|].
+      destruct (nth_error s i) as [c|] eqn:Ec; [|exact Hs'].
+      pose proof (cell_inv_set_params W c args kwargs (store_inv_nth _ _ _ Hs' Ec)) as Hc.
+      destruct (cell_set_params W c args kwargs) as [c'|[c' rest]]; cbn [fst]; apply Forall_upd; assumption.
+  Qed.
+
+  Lemma run_history_inv : forall h w, forallb op_okb h = true -> store_inv (w_store w) ->
+    store_inv (w_store (run_history W D w h)).
+  Proof.
+    induction h as [|o h IH]; intros w Hh Hs; cbn [run_history]; [exact Hs|].
+    cbn [forallb] in Hh. apply andb_prop in Hh. destruct Hh as [Ho Hr].
+    apply IH; [exact Hr|apply step_inv; assumption].
+  Qed.
+End HistInv.
+
+Theorem history_normalised : C18_history_normalised_stmt.
+Proof.
+  intros W D HW t h Hh c p Hc Hp.
+  assert (Hs : store_inv (w_store (run_history W D (world0 t) h))).
+  { apply run_history_inv; [exact Hh|]. constructor. }
+  apply (cell_inv_ok W HW c p); [|exact Hp]. apply (proj1 (Forall_forall _ _) Hs c Hc).
+Qed.
